@@ -20,7 +20,7 @@ type tlInfo struct {
 	Named    *types.Named
 	TaskI    *types.Named
 	Fns      []*ssa.Function
-	Ctor     *ssa.Function
+	Ctor     *ssa.Function // inlined view, like Queue, Worker, Push and Status (compare with sameFn)
 	Buffered *types.Var // []chan Task made with non-zero capacity
 	Blocking *types.Var // []chan Task made with capacity 0
 	Shared   *types.Var // chan Task
@@ -31,6 +31,7 @@ type tlInfo struct {
 	Push     *ssa.Function
 	Status   *ssa.Function
 	GoSites  []*ssa.Go
+	Views    []pkgView
 	problems []string
 }
 
@@ -93,61 +94,108 @@ func resolveTaskLane(p *core.Prog) *tlInfo {
 			}
 		}
 	}
-	// constructor: the function that starts goroutines running TaskLane methods
-	for _, fn := range t.Fns {
-		sx.Instrs(fn, func(in ssa.Instruction) {
-			if g, ok := in.(*ssa.Go); ok {
-				t.GoSites = append(t.GoSites, g)
-				if fn.Parent() == nil && fn.Signature.Recv() == nil {
-					t.Ctor = fn
-				}
+	// All role resolution and all path rules run on inlined views (core.Prog.Inl): a select moved into a
+	// helper of the package, or go statements moved into a per-lane start helper, are seen in place.
+	t.Views = pkgViews(p, "tasklane")
+	// constructor: the package-level function whose (inlined) body starts goroutines
+	for _, v := range t.Views {
+		if v.Root.Signature.Recv() != nil {
+			continue
+		}
+		n := 0
+		sx.Instrs(v.Fn, func(in ssa.Instruction) {
+			if _, ok := in.(*ssa.Go); ok {
+				n++
 			}
 		})
+		if n > 0 {
+			t.Ctor = v.Fn
+		}
 	}
 	if t.Ctor == nil {
 		t.problems = append(t.problems, "no package-level function of tasklane starts goroutines (constructor not found)")
 		return t
 	}
-	// buffered vs blocking lists: capacity of the channels stored into the slice that ends up in the field
-	for _, f := range lists {
-		capKind := ""
-		for _, ref := range sx.FieldRefs([]*ssa.Function{t.Ctor}, f) {
-			fa, ok := ref.Instr.(*ssa.FieldAddr)
-			if !ok {
-				continue
-			}
-			for _, a := range sx.Accesses(fa) {
-				if a.Kind != "write" {
-					continue
+	// go statements: those of the constructor's view, and those of every other view that are not copies of the same source statement
+	seenGo := map[ssa.Instruction]bool{}
+	sx.Instrs(t.Ctor, func(in ssa.Instruction) {
+		if g, ok := in.(*ssa.Go); ok {
+			t.GoSites = append(t.GoSites, g)
+			seenGo[sx.OrigInstr(g)] = true
+		}
+	})
+	for _, v := range t.Views {
+		if v.Fn == t.Ctor {
+			continue
+		}
+		for _, f := range sx.WithClosures(v.Fn) {
+			sx.Instrs(f, func(in ssa.Instruction) {
+				if g, ok := in.(*ssa.Go); ok && !seenGo[sx.OrigInstr(g)] {
+					// a helper that only the constructor calls was judged there
+					if src := sx.SourceFunc(g); !sameFn(src, v.Root) && onlyCalledFrom(p, src, map[*ssa.Function]bool{t.Ctor: true}) {
+						return
+					}
+					t.GoSites = append(t.GoSites, g)
+					seenGo[sx.OrigInstr(g)] = true
 				}
-				ms, ok := sx.Unspill(a.Val).(*ssa.MakeSlice)
+			})
+		}
+	}
+	// buffered vs blocking lists: capacity of the channels the constructor stores into the elements of the slice held by the field
+	listOf := func(base ssa.Value) *types.Var {
+		for _, f := range lists {
+			if sx.Origins(base)[t.fieldKey(f)] {
+				return f
+			}
+		}
+		ms, ok := sx.Unspill(base).(*ssa.MakeSlice)
+		if !ok {
+			return nil
+		}
+		for _, f := range lists {
+			for _, ref := range sx.FieldRefs([]*ssa.Function{t.Ctor}, f) {
+				fa, ok := ref.Instr.(*ssa.FieldAddr)
 				if !ok {
 					continue
 				}
-				for _, u := range *ms.Referrers() {
-					ia, ok := u.(*ssa.IndexAddr)
-					if !ok {
-						continue
-					}
-					for _, uu := range *ia.Referrers() {
-						st, ok := uu.(*ssa.Store)
-						if !ok {
-							continue
-						}
-						mc, ok := st.Val.(*ssa.MakeChan)
-						if !ok {
-							continue
-						}
-						if k, isC := sx.ConstInt(mc.Size); isC && k == 0 {
-							capKind = "blocking"
-						} else {
-							capKind = "buffered"
-						}
+				for _, a := range sx.Accesses(fa) {
+					if a.Kind == "write" && sx.Unspill(a.Val) == ssa.Value(ms) {
+						return f
 					}
 				}
 			}
 		}
-		switch capKind {
+		return nil
+	}
+	capKind := map[*types.Var]string{}
+	sx.Instrs(t.Ctor, func(in ssa.Instruction) {
+		st, ok := in.(*ssa.Store)
+		if !ok {
+			return
+		}
+		mc, ok := sx.Unspill(st.Val).(*ssa.MakeChan)
+		if !ok {
+			return
+		}
+		ia, ok := st.Addr.(*ssa.IndexAddr)
+		if !ok {
+			return
+		}
+		f := listOf(ia.X)
+		if f == nil {
+			return
+		}
+		kind := "buffered"
+		if k, isC := sx.ConstInt(mc.Size); isC && k == 0 {
+			kind = "blocking"
+		}
+		if prev, ok := capKind[f]; ok && prev != kind {
+			kind = "mixed"
+		}
+		capKind[f] = kind
+	})
+	for _, f := range lists {
+		switch capKind[f] {
 		case "blocking":
 			t.Blocking = f
 		case "buffered":
@@ -174,14 +222,15 @@ func resolveTaskLane(p *core.Prog) *tlInfo {
 		if g.Parent() != t.Ctor {
 			continue
 		}
-		body := sx.StaticCallee(g)
-		if body == nil {
+		src := sx.StaticCallee(g)
+		if src == nil {
 			continue
 		}
+		body := p.Inl(src)
 		// the queue goroutine is the one that hands tasks over (sends on the hand-over channels, possibly in helpers);
 		// the worker is the one from which Task.Start is reachable
 		handsOver := false
-		for f := range reachableFrom(p, body) {
+		for _, f := range sx.WithClosures(body) {
 			sx.Instrs(f, func(in ssa.Instruction) {
 				if s, ok := in.(*ssa.Select); ok {
 					for _, st := range s.States {
@@ -198,7 +247,7 @@ func resolveTaskLane(p *core.Prog) *tlInfo {
 			})
 		}
 		switch {
-		case startReach(body) && !handsOver:
+		case startReach(src) && !handsOver:
 			t.Worker = body
 		case handsOver:
 			t.Queue = body
@@ -206,10 +255,11 @@ func resolveTaskLane(p *core.Prog) *tlInfo {
 	}
 	ms := p.SSA.MethodSets.MethodSet(types.NewPointer(t.Named))
 	for i := 0; i < ms.Len(); i++ {
-		fn := p.SSA.MethodValue(ms.At(i))
-		if fn == nil || fn.Blocks == nil {
+		src := p.SSA.MethodValue(ms.At(i))
+		if src == nil || src.Blocks == nil {
 			continue
 		}
+		fn := p.Inl(src)
 		if ms.At(i).Obj().Name() == "Status" {
 			t.Status = fn
 		}
